@@ -153,7 +153,7 @@ def gen_request(rng, k, *, mode="regular", host=b"example.com", hostile_p=0.6, a
                 ambiguous = True
                 feats.add(f)
             elif f in ("te-x", "te-identity", "te-chunked-twice") and framing == "chunked":
-                v = {"te-x": rng.choice([b"xchunked", b"chunked-x", b"chunked, gzip", b"\x0bchunked", b"chunked\x0b"]), "te-identity": b"identity", "te-chunked-twice": b"chunked, chunked"}[f]
+                v = {"te-x": rng.choice([b"xchunked", b"chunked-x", b"chunked, gzip", b"\x0bchunked", b"chunked\x0b", b"gzip,\x0bchunked", b"gzip\x0c,chunked", b"gzip,\x1fchunked", b"gzip\x0b, chunked", b"gzip ,\x0c chunked"]), "te-identity": b"identity", "te-chunked-twice": b"chunked, chunked"}[f]
                 headers = [(a, (v if a.lower() == b"transfer-encoding" else b)) for a, b in headers]
                 ambiguous = True
                 feats.add(f)
